@@ -40,6 +40,7 @@ GROUPS = {
     'core': dict(crate='minijinja', features=BASE_FEATURES),
     'debug': dict(crate='minijinja', features=BASE_FEATURES + ',debug'),
     'syntax': dict(crate='minijinja', features=BASE_FEATURES + ',custom_syntax'),
+    'serde': dict(crate='minijinja', features=BASE_FEATURES + ',deserialization'),
     # the dependency minijinja is compiled with cfg(kani) too, so its harness files need the same features
     'autoreload': dict(crate='minijinja-autoreload', features=''),
 }
@@ -196,7 +197,9 @@ def build(group, harnesses, prop=''):
                        stderr=subprocess.STDOUT, text=True)
     dt = time.time() - t0
     if p.returncode != 0:
-        tail = '\n'.join(l for l in p.stdout.split('\n') if not l.startswith('warning'))[-6000:]
+        # keep the compiler's error blocks (first 12), not the trailing warnings
+        blocks = re.findall(r'^error(?:\[E\d+\])?:.*(?:\n(?!error|warning).*){0,8}', p.stdout, re.M)
+        tail = '\n'.join(blocks[:12]) or p.stdout[-3000:]
         return None, dt, tail
     # newest metadata file of this crate that contains our harnesses
     crate_us = g['crate'].replace('-', '_')
